@@ -160,12 +160,9 @@ pub fn q_or_c_reg_param(p: &mut Parser<'_>) {
         return;
     }
     p.bump_any();
-    if p.at(T!['[']) && !p.at(EOF) {
+    // The designator is optional: `qreg q;` declares a single qubit.
+    if p.at(T!['[']) {
         index_operator(p);
-    } else {
-        p.error("Expected index operator");
-        m.abandon(p);
-        return;
     }
     m.complete(p, OLD_TYPED_PARAM);
 }
